@@ -79,3 +79,490 @@ def gen_tables():
     txt += "Definition convert_op2str : list (list Z * str) :=\n  %s.\n" % clist(
         ["(%s, %s)" % (clist([cZ(i) for i in k], "Z"), cstr(v)) for k, v in ops.items()], "list Z * str")
     return {"Tables_C01.v": txt}
+
+
+# =========================================================================================
+# the check
+# =========================================================================================
+import itertools  # noqa: E402
+import sys  # noqa: E402
+
+from .common import Check, Err, cN, cbool, copt, cpair, impl_call  # noqa: E402
+
+IMPORTS = ("From Coq Require Import List NArith ZArith Bool.\n"
+           "From Verif Require Import Base.Val gen.Tables_C01 C01.Model_C01 C01.Spec_C01.")
+ANCHORS = ["ebuild/cpv.py::ver_cmp", "ebuild/cpv.py::Revision", "ebuild/cpv.py::CPV.__eq__",
+           "ebuild/cpv.py::CPV.__lt__", "ebuild/cpv.py::CPV.__le__", "ebuild/cpv.py::CPV.__gt__",
+           "ebuild/cpv.py::CPV.__ge__", "ebuild/cpv.py::suffix_value", "ebuild/cpv.py::suffix_regexp",
+           "ebuild/cpv.py::isvalid_version_re", "ebuild/restricts.py::_VersionMatch"]
+KINDS = ("alpha", "beta", "pre", "rc", "p")
+KIND_COQ = {"alpha": "Alpha", "beta": "Beta", "pre": "Pre", "rc": "Rc", "p": "P"}
+RANK = {"alpha": 0, "beta": 1, "pre": 2, "rc": 3, "p": 5}
+OPS = ("<", "<=", "=", ">=", ">", "~")
+DIGITS = ("0", "00", "01", "010", "1", "10", "2", "9", "09", "090", "100", "12", "120", "7", "07", "070")
+
+
+# ---------------------------------------------------------------- versions as ASTs
+class V:
+    """version AST: nums (digit strings), letter (str or None), sufs [(kind, digits)]"""
+    __slots__ = ("nums", "letter", "sufs")
+
+    def __init__(self, nums, letter=None, sufs=()):
+        self.nums, self.letter, self.sufs = tuple(nums), letter, tuple(sufs)
+
+    def text(self):
+        return ".".join(self.nums) + (self.letter or "") + "".join(f"_{k}{d}" for k, d in self.sufs)
+
+    def coq(self):
+        return ("{| nums := %s; letter := %s; sufs := %s |}" % (
+            clist([cstr(n) for n in self.nums], "str"),
+            copt(self.letter, lambda c: cN(ord(c)), "N"),
+            clist(["(%s, %s)" % (KIND_COQ[k], cstr(d)) for k, d in self.sufs], "skind * str")))
+
+    def key(self):
+        return (self.nums, self.letter, self.sufs)
+
+
+def c_rev(r):
+    return copt(r, cN, "N")
+
+
+def sgn(x):
+    return (x > 0) - (x < 0)
+
+
+def py_pms_cmp(a: V, ra: int, b: V, rb: int) -> int:
+    """the PMS algorithm, written independently of cpv.py (direct oracle for comparison B)."""
+    c = sgn(int(a.nums[0]) - int(b.nums[0]))
+    if c:
+        return c
+    for x, y in zip(a.nums[1:], b.nums[1:]):
+        if x[0] == "0" or y[0] == "0":
+            xs, ys = x.rstrip("0"), y.rstrip("0")
+            c = (xs > ys) - (xs < ys)
+        else:
+            c = sgn(int(x) - int(y))
+        if c:
+            return c
+    c = sgn(len(a.nums) - len(b.nums))
+    if c:
+        return c
+    la, lb = (ord(a.letter) if a.letter else -1), (ord(b.letter) if b.letter else -1)
+    if la != lb:
+        return sgn(la - lb)
+    for (k1, d1), (k2, d2) in zip(a.sufs, b.sufs):
+        c = sgn(RANK[k1] - RANK[k2]) if k1 != k2 else sgn(int(d1 or "0") - int(d2 or "0"))
+        if c:
+            return c
+    if len(a.sufs) > len(b.sufs):
+        return 1 if a.sufs[len(b.sufs)][0] == "p" else -1
+    if len(b.sufs) > len(a.sufs):
+        return -1 if b.sufs[len(a.sufs)][0] == "p" else 1
+    return sgn(ra - rb)
+
+
+def py_op_holds(op: str, c: int) -> bool:
+    return {"<": c < 0, "<=": c <= 0, "=": c == 0, ">=": c >= 0, ">": c > 0, "~": c == 0}[op]
+
+
+# ---------------------------------------------------------------- generator
+def gen_digits(rng, first=False):
+    x = rng.random()
+    if x < 0.70:
+        return rng.choice(DIGITS)
+    if x < 0.85:
+        return str(rng.randrange(0, 2000))
+    if x < 0.93:  # long runs (beyond 64 bits)
+        return rng.choice(("", "0")) + "".join(rng.choice("0123456789") for _ in range(rng.randrange(18, 30)))
+    return "0" * rng.randrange(1, 4) + str(rng.randrange(0, 50)) + "0" * rng.randrange(0, 3)
+
+
+def gen_suffix(rng):
+    return (rng.choice(KINDS), rng.choice(("", "", "0", "00", "1", "01", "2", "10", str(rng.randrange(0, 300)))))
+
+
+def gen_version(rng) -> V:
+    n = rng.choice((1, 1, 2, 2, 2, 3, 3, 4))
+    nums = [gen_digits(rng, i == 0) for i in range(n)]
+    letter = rng.choice("abzAZ") if rng.random() < 0.25 else None
+    sufs = [gen_suffix(rng) for _ in range(rng.choice((0, 0, 0, 1, 1, 2, 3)))]
+    return V(nums, letter, sufs)
+
+
+def respell_digits(rng, d):
+    return rng.choice((d + "0", "0" + d, d.rstrip("0") or "0", d.lstrip("0") or "0", str(int(d) + 1),
+                       str(max(0, int(d) - 1)), d + "1", "0" + d + "0", d[:-1] or "1"))
+
+
+def neighbour(rng, v: V) -> V:
+    """a single edit of v"""
+    nums, letter, sufs = list(v.nums), v.letter, list(v.sufs)
+    what = rng.randrange(9)
+    if what <= 2:
+        i = rng.randrange(len(nums)) if what else 0
+        nums[i] = respell_digits(rng, nums[i])
+    elif what == 3:
+        if len(nums) > 1 and rng.random() < 0.5:
+            nums.pop()
+        else:
+            nums.append(rng.choice(("0", "00", "1", "01")))
+    elif what == 4:
+        letter = None if letter else rng.choice("abzAZ")
+        if rng.random() < 0.3:
+            letter = rng.choice("abzAZ")
+    elif what == 5 and sufs:
+        i = rng.randrange(len(sufs))
+        k, d = sufs[i]
+        sufs[i] = (rng.choice(KINDS), d) if rng.random() < 0.5 else (k, respell_digits(rng, d or "0") if rng.random() < 0.8 else "")
+    elif what == 6 and sufs:
+        sufs.pop(rng.randrange(len(sufs)))
+    elif what in (5, 6, 7):
+        sufs.insert(rng.randrange(len(sufs) + 1), gen_suffix(rng))
+    else:
+        pass  # identical text: only the revisions will differ
+    return V(nums, letter, sufs)
+
+
+def gen_rev(rng):
+    return rng.choice((None, None, None, 0, 0, 1, 1, 2, 3, 10, rng.randrange(0, 40)))
+
+
+POOL_TEXT = (
+    "0 00 1 01 09 9 10 010 1.0 1.00 1.01 1.1 1.10 1.010 1.09 1.9 1.0.0 1.0.1 1.1.0 2 2.0 1a 1b 1.0a 1.0z 1.0A "
+    "1_alpha 1_alpha0 1_alpha1 1_alpha01 1_beta 1_pre 1_rc 1_rc2 1_p 1_p0 1_p1 1_p1_alpha 1_p1_p 1_p1_beta2 "
+    "1_alpha_p 1_alpha_alpha 1_rc_p1 1.0_p 1.0_alpha 1.0a_p1 1.0a_alpha 1.00a 1.2 1.02 1.020 1.002 1.20 "
+    "123456789012345678901234567890 123456789012345678901234567891 1.123456789012345678901234567890 0.0 0.00"
+).split()
+
+
+def parse_text(s: str) -> V:
+    """parse a pool version written by hand above (trusted to be valid)."""
+    head, *sf = s.split("_")
+    letter = None
+    if head[-1].isalpha():
+        head, letter = head[:-1], head[-1]
+    sufs = []
+    for x in sf:
+        for k in ("alpha", "beta", "pre", "rc", "p"):
+            if x.startswith(k):
+                sufs.append((k, x[len(k):]))
+                break
+    return V(head.split("."), letter, sufs)
+
+
+# ---------------------------------------------------------------- driving the implementation
+def spell_rev(rng, r, allow_none=True):
+    """a Python-level spelling of the revision value r (None = absent)."""
+    from pkgcore.ebuild.cpv import Revision
+    if r is None:
+        c = rng.randrange(4)
+        if c == 0 and allow_none:
+            return None
+        if c == 1:
+            return 0
+        return Revision("")
+    c = rng.randrange(5)
+    if c == 0:
+        return r
+    if c == 1:
+        return Revision("0" * rng.randrange(1, 3) + str(r))
+    return Revision(str(r))
+
+
+def describe_rev(x):
+    return None if x is None else (x if isinstance(x, int) else f"Revision({x.data!r})")
+
+
+def main(chk: Check):
+    from pkgcore.ebuild import cpv as cpvmod
+    from pkgcore.ebuild import restricts
+
+    rng = chk.rng
+    chk.rule("versions generated as ASTs from the grammar of isvalid_version_re (biased digit runs 0/00/01/010/"
+             "09/..., runs of 18-30 digits, 1-4 components, letter, 0-3 stacked suffixes, revisions None/r0/r00/"
+             "rN in several Python spellings); pairs = (base, single-edit neighbour) 70% / independent 30%, plus "
+             "ALL ordered pairs of a fixed pool and all triples of a sub-pool (order laws on the implementation); "
+             "non-trivial = the two version texts differ; malformed stream = valid texts with one character "
+             "edit, checked against isvalid_version_re")
+    try:
+        tables.regenerate(sys.modules[__name__])
+    except TableError as e:
+        chk.violation("table", {"what": "literal tables of cpv.py/restricts.py no longer have the shape the "
+                                        "model assumes (fail-closed extraction)", "error": str(e)}, no_input=True)
+    ok = chk.build(["C01/Prop_C01.vo"])
+    if ok:
+        chk.check_assumptions("C01/Prop_C01.v")
+    chk.lint(["C01", "gen/Tables_C01.v"])
+    chk.check_fingerprint(ANCHORS)
+
+    prop_bad = []   # concrete property failures found by the Python oracle on the implementation
+
+    def report_prop(what, inp):
+        if len(prop_bad) < 200:
+            prop_bad.append({"what": what, "input": inp})
+
+    # ------------------------------------------------------------ stream vercmp
+    pool = [parse_text(s) for s in POOL_TEXT]
+    if chk.thorough or chk.fingerprint_changed:
+        seen = {v.key() for v in pool}
+        while len(pool) < 120:
+            v = gen_version(rng) if rng.random() < 0.5 else neighbour(rng, rng.choice(pool))
+            if v.key() not in seen:
+                seen.add(v.key())
+                pool.append(v)
+    for v in pool:
+        assert cpvmod.isvalid_version_re.match(v.text()), v.text()
+
+    cases = []      # (a, ra, b, rb)
+
+    def add_case(a, ra, b, rb):
+        cases.append((a, ra, b, rb))
+
+    # all ordered pairs of the pool, revisions absent (pure version order)
+    for a in pool:
+        for b in pool:
+            add_case(a, None, b, None)
+    n_pairs = len(cases)
+    for corp in sorted((chk_corpus()).glob("*.json")) if chk_corpus().exists() else []:
+        import json
+        d = json.loads(corp.read_text())
+        if d.get("stream") == "vercmp":
+            add_case(parse_text(d["v1"]), d.get("r1"), parse_text(d["v2"]), d.get("r2"))
+    for _ in range(chk.n(1100, 8000)):
+        a = gen_version(rng)
+        b = neighbour(rng, a) if rng.random() < 0.7 else gen_version(rng)
+        if rng.random() < 0.5:
+            a, b = b, a
+        ra = gen_rev(rng)
+        rb = ra if rng.random() < 0.4 else gen_rev(rng)
+        add_case(a, ra, b, rb)
+
+    vc_cases = []
+    results = {}
+    full_pairs = chk.thorough or chk.fingerprint_changed
+    for idx, (a, ra, b, rb) in enumerate(cases):
+        ta, tb = a.text(), b.text()
+        if idx < n_pairs:
+            sa, sb = spell_rev(rng, None), spell_rev(rng, None)
+        else:
+            sa, sb = spell_rev(rng, ra), spell_rev(rng, rb)
+        res = impl_call(lambda: cpvmod.ver_cmp(ta, sa, tb, sb))
+        if isinstance(res, bool) or not isinstance(res, int):
+            res = res if isinstance(res, Err) else Err("not-an-int")
+        if idx >= n_pairs or full_pairs or (idx // len(pool)) <= (idx % len(pool)) or idx % 5 == 0:
+            # quick tier: Coq sees the pairs (i <= j) and every fifth of the others; the Python
+            # oracle below judges the implementation on ALL ordered pairs
+            vc_cases.append((cpair(a.coq(), c_rev(ra), b.coq(), c_rev(rb)), res))
+        if idx < n_pairs:
+            results[(ta, tb)] = res
+        if ta != tb:
+            chk.nontrivial((ta, ra, tb, rb))
+        want = py_pms_cmp(a, ra or 0, b, rb or 0)
+        if res != want:
+            report_prop("ver_cmp differs from the PMS algorithm",
+                        {"v1": ta, "r1": describe_rev(sa), "v2": tb, "r2": describe_rev(sb),
+                         "implementation": res, "pms": want})
+        if idx % 977 == 0:
+            chk.sample({"stream": "vercmp", "v1": ta, "r1": describe_rev(sa), "v2": tb, "r2": describe_rev(sb), "impl": res})
+    chk.count("vercmp", len(cases))
+
+    # ------------------------------------------------------------ order laws on the implementation
+    texts = [v.text() for v in pool]
+    n_law = 0
+    for x in texts:
+        if results[(x, x)] != 0:
+            report_prop("ver_cmp(a, a) != 0", {"a": x, "implementation": results[(x, x)]})
+        for y in texts:
+            n_law += 1
+            r1, r2 = results[(x, y)], results[(y, x)]
+            if isinstance(r1, Err) or isinstance(r2, Err) or r1 != -r2:
+                report_prop("ver_cmp(a, b) != -ver_cmp(b, a)", {"a": x, "b": y, "ab": r1, "ba": r2})
+    tri = texts if chk.thorough else texts[:40]
+    le = {(x, y) for x in tri for y in tri if not isinstance(results[(x, y)], Err) and results[(x, y)] <= 0}
+    succ = {x: [y for y in tri if (x, y) in le] for x in tri}
+    for x in tri:
+        for y in succ[x]:
+            for z in succ[y]:
+                n_law += 1
+                if (x, z) not in le:
+                    report_prop("ver_cmp not transitive: a <= b, b <= c, but a > c", {"a": x, "b": y, "c": z})
+    chk.count("order-laws", n_law)
+
+    # ------------------------------------------------------------ stream match
+    m_cases = []
+    for i in range(chk.n(600, 6000)):
+        a = gen_version(rng)
+        p = a if rng.random() < 0.15 else (neighbour(rng, a) if rng.random() < 0.75 else gen_version(rng))
+        ra, rp = gen_rev(rng), gen_rev(rng)
+        if rng.random() < 0.4:
+            rp = ra
+        op = rng.randrange(6) if rng.random() < 0.97 else 6
+        neg = rng.random() < 0.35
+        opstr = OPS[op] if op < 6 else rng.choice(("==", "", "!=", "=*"))
+        sa = spell_rev(rng, ra)
+        ptext = "cat/pkg-" + p.text() + ("" if rp is None else "-r" + rng.choice(("", "0")) + str(rp))
+
+        def run():
+            pk = cpvmod.VersionedCPV(ptext)
+            r = restricts.VersionMatch(opstr, a.text(), rev=sa, negate=neg).match(pk)
+            return r if isinstance(r, bool) else Err("not-a-bool")
+        res = impl_call(run)
+        m_cases.append((cpair(cN(op), cbool(neg), a.coq(), c_rev(ra), p.coq(), c_rev(rp)), res))
+        chk.nontrivial(("m", op, neg, a.text(), ra, p.text(), rp))
+        if op < 6:
+            c = py_pms_cmp(p, 0, a, 0) if opstr == "~" else py_pms_cmp(p, rp or 0, a, ra or 0)
+            want = py_op_holds(opstr, c) != neg
+            if res != want:
+                report_prop("VersionMatch disagrees with the version order",
+                            {"op": opstr, "negate": neg, "restriction_version": a.text(), "restriction_rev": describe_rev(sa),
+                             "package": ptext, "implementation": res, "expected": want})
+        elif not isinstance(res, Err):
+            report_prop("VersionMatch accepted an invalid operator", {"op": opstr, "implementation": res})
+        if i % 311 == 0:
+            chk.sample({"stream": "match", "op": opstr, "negate": neg, "ver": a.text(), "rev": describe_rev(sa),
+                        "pkg": ptext, "impl": res})
+    chk.count("match", len(m_cases))
+
+    # ------------------------------------------------------------ stream cpvops
+    o_cases = []
+    names = ("a", "b", "ab", "a-b", "B")
+    for i in range(chk.n(300, 3000)):
+        a = gen_version(rng)
+        b = a if rng.random() < 0.1 else (neighbour(rng, a) if rng.random() < 0.7 else gen_version(rng))
+        ra, rb = gen_rev(rng), gen_rev(rng)
+        c1, p1 = rng.choice(names), rng.choice(names)
+        c2 = c1 if rng.random() < 0.8 else rng.choice(names)
+        p2 = p1 if rng.random() < 0.8 else rng.choice(names)
+
+        def mk(c, p, v, r):
+            return f"{c}/{p}-{v.text()}" + ("" if r is None else "-r" + rng.choice(("", "0")) + str(r))
+        t1, t2 = mk(c1, p1, a, ra), mk(c2, p2, b, rb)
+
+        def run():
+            x, y = cpvmod.VersionedCPV(t1), cpvmod.VersionedCPV(t2)
+            return [x == y, x != y, x < y, x <= y, x > y, x >= y]
+        res = impl_call(run)
+        term = "({| cat := %s; pkg := %s; ver := %s; rev := %s |}, {| cat := %s; pkg := %s; ver := %s; rev := %s |})" % (
+            cstr(c1), cstr(p1), cstr(a.text()), c_rev(ra), cstr(c2), cstr(p2), cstr(b.text()), c_rev(rb))
+        o_cases.append((term, res))
+        chk.nontrivial(("o", t1, t2))
+        # oracle: the operators are those of the order (category, package, PMS version order)
+        k = sgn((c1 > c2) - (c1 < c2)) or sgn((p1 > p2) - (p1 < p2)) or py_pms_cmp(a, ra or 0, b, rb or 0)
+        want = [k == 0, k != 0, k < 0, k <= 0, k > 0, k >= 0]
+        if res != want:
+            report_prop("CPV rich comparisons disagree with (category, package, version order)",
+                        {"a": t1, "b": t2, "implementation[==,!=,<,<=,>,>=]": res, "expected": want})
+    chk.count("cpvops", len(o_cases))
+
+    # ------------------------------------------------------------ stream valid (malformed)
+    v_cases = []
+    alphabet = "0123456789._-abprecltAZ\n ~+"
+    seen = set()
+    for i in range(chk.n(500, 4000)):
+        s = gen_version(rng).text()
+        if i % 4:
+            for _ in range(rng.choice((1, 1, 2))):
+                k = rng.randrange(3)
+                pos = rng.randrange(len(s) + 1)
+                if k == 0:
+                    s = s[:pos] + rng.choice(alphabet) + s[pos:]
+                elif k == 1 and s:
+                    pos = min(pos, len(s) - 1)
+                    s = s[:pos] + s[pos + 1:]
+                elif s:
+                    pos = min(pos, len(s) - 1)
+                    s = s[:pos] + rng.choice(alphabet) + s[pos + 1:]
+        if s in seen:
+            continue
+        seen.add(s)
+        res = impl_call(lambda: bool(cpvmod.isvalid_version_re.match(s)))
+        v_cases.append((cstr(s), res))
+        chk.nontrivial(("v", s))
+    for s in ("", "1\n", "1\n\n", "1_", "1_p_", "1.", ".1", "1..2", "1a1", "1ab", "a", "1_pre1_p", "1_pr", "1_alph", "1_rc1a", "1.a"):
+        v_cases.append((cstr(s), impl_call(lambda: bool(cpvmod.isvalid_version_re.match(s)))))
+    chk.count("valid", len(v_cases))
+    chk.sample({"stream": "valid", "text": v_cases[1][0], "impl": v_cases[1][1]})
+
+    # ------------------------------------------------------------ evaluate model and spec inside Coq
+    streams = [
+        ("vercmp", "ast_case", vc_cases, ["mismatches run_vercmp_ast cases",
+                                          "where_ (fun i r => negb (spec_vercmp_ok i r)) cases"]),
+        ("match", "match_case", m_cases, ["mismatches run_match_ast cases",
+                                          "where_ (fun i r => negb (spec_match_ok i r)) cases"]),
+        ("cpvops", "cpv * cpv", o_cases, ["mismatches run_cpvops cases"]),
+        ("valid", "str", v_cases, ["mismatches run_valid cases"]),
+    ]
+    spec_bad = []
+    corr_bad = []
+    for name, ty, cs, evals in streams:
+        if not ok:
+            break
+        r = chk.coq_eval(name, IMPORTS, ty, cs, evals)
+        if r is None:
+            continue
+        for i in r[0][:3]:
+            corr_bad.append((name, cs[i]))
+        if len(r) > 1:
+            for i in r[1][:3]:
+                spec_bad.append((name, cs[i]))
+    # the printed text of the ASTs is what the implementation was run on
+    if ok:
+        pr = [(v.coq(), v.text()) for v in pool[:80]]
+        r = chk.coq_eval("print", IMPORTS, "vast", pr, ["mismatches run_print cases"])
+        if r is not None:
+            for i in r[0][:3]:
+                corr_bad.append(("print", pr[i]))
+
+    for b in prop_bad[:5]:
+        chk.violation("property", b)
+    if not prop_bad:
+        for name, c in spec_bad[:3]:
+            chk.violation("property", {"what": f"Spec_C01 rejects the implementation's result on stream '{name}'",
+                                       "input": c[0], "implementation": c[1]})
+    for name, c in corr_bad[:4]:
+        chk.violation("correspondence",
+                      {"what": f"implementation and Model_C01 disagree on stream '{name}' (the theorems of "
+                               "Prop_C01 — ver_cmp_is_pms, ver_cmp_total_preorder, version_match_agrees — no "
+                               "longer speak about this code)",
+                       "input": c[0], "implementation": c[1]},
+                      no_input=not (prop_bad or spec_bad))
+
+
+def chk_corpus():
+    from .common import VERIF
+    return VERIF / "corpus" / "C01"
+
+
+def replay(chk, data):
+    """re-run one recorded vercmp / match case on the implementation and the Python PMS oracle."""
+    from pkgcore.ebuild import cpv as cpvmod
+    from pkgcore.ebuild import restricts
+    inp = (data.get("detail") or {}).get("input")
+    if not isinstance(inp, dict):
+        print("replay: no structured input recorded (correspondence/proof violation); see 'detail'")
+        return
+
+    def rv(x):
+        if isinstance(x, str) and x.startswith("Revision("):
+            return cpvmod.Revision(x[len("Revision('"):-2])
+        return x
+    if "v1" in inp:
+        got = impl_call(lambda: cpvmod.ver_cmp(inp["v1"], rv(inp["r1"]), inp["v2"], rv(inp["r2"])))
+        a, b = parse_text(inp["v1"]), parse_text(inp["v2"])
+
+        def val(x):
+            x = rv(x)
+            return 0 if x is None else (x if isinstance(x, int) else int(x.data or 0))
+        print("implementation:", got, " PMS:", py_pms_cmp(a, val(inp["r1"]), b, val(inp["r2"])))
+    elif "op" in inp and "package" in inp:
+        got = impl_call(lambda: restricts.VersionMatch(inp["op"], inp["restriction_version"], rev=rv(inp["restriction_rev"]),
+                                                       negate=inp["negate"]).match(cpvmod.VersionedCPV(inp["package"])))
+        print("implementation:", got, " expected:", inp.get("expected"))
+    elif "a" in inp and "b" in inp and "c" not in inp:
+        def run():
+            x, y = cpvmod.VersionedCPV(inp["a"]), cpvmod.VersionedCPV(inp["b"])
+            return [x == y, x != y, x < y, x <= y, x > y, x >= y]
+        print("implementation [==,!=,<,<=,>,>=]:", impl_call(run) if "/" in inp["a"] else
+              impl_call(lambda: (cpvmod.ver_cmp(inp["a"], None, inp["b"], None), cpvmod.ver_cmp(inp["b"], None, inp["a"], None))))
+    else:
+        print("replay: input", inp)
